@@ -33,11 +33,11 @@ Lemma rx_buf_step_o o s : not_rx o = true -> rx_buf (step s o) = rx_buf s.
 Proof. intros Ho. destruct o; try discriminate Ho; st_unfold; p_split; s_leaf. Qed.
 
 Lemma next_id_step_o o s : closed s = false -> not_rx o = true ->
-  next_id (step s o) = match o with OSend _ => next_id s + 1 | _ => next_id s end.
+  next_id (step s o) = match o with OSend _ => if in_term s then next_id s else next_id s + 1 | _ => next_id s end.
 Proof. intros Hc Ho. destruct o; try discriminate Ho; st_unfold; rewrite ?Hc; p_split; s_leaf. Qed.
 
 Lemma pend_start_step_o (P : N * bytes -> Prop) o s : not_rx o = true ->
-  Forall P (pend_start s) -> (forall d, o = OSend d -> P (next_id s, d)) ->
+  Forall P (pend_start s) -> (forall d, o = OSend d -> in_term s = false -> P (next_id s, d)) ->
   Forall P (pend_start (step s o)).
 Proof.
   intros Ho. destruct o; try discriminate Ho; st_unfold; p_split; intros H Hs; try exact H;
